@@ -65,7 +65,7 @@ func c17e3Scenario(v c17e3Variant) func() *sched.Scenario {
 		}
 		ctx, cancel := context.WithCancel(context.Background())
 		closing, closed := false, false // CloseWithError called / returned
-		accepted := map[byte]int{} // id -> Add returned nil
+		accepted := map[byte]int{}      // id -> Add returned nil
 		addErr := map[byte]error{}
 		var popped []byte // ids in the order the run loop dequeued them (prefill excluded)
 		var fail *explore.Fail
